@@ -23,6 +23,14 @@ of the framework assumes about those arguments, and then calls the original func
                  `penalty_score >= 0` (`NonNegFirst` / `MemoryModeOk` of Props/C15Reuse.lean; proved for the modelled
                  assigner in Props/C15Penalty.lean under a hypothesis on the comparator's index ranges).  Watched in
                  memory because the dump cannot show it: `write_int` refuses a negative scaled penalty
+     listfns     every list function of src/common.py (C19, DESIGN §6 "for every list of sorted intervals"), patched in every
+                 src module that imports it by name, + the read-feature argument of the three profile constructors and the
+                 transcript-feature argument of FeatureProfiles.set_profiles: each interval-list argument must be well
+                 formed, sorted and pairwise disjoint (touching allowed), and non-empty where the function reads l[0] /
+                 l[-1] (hypotheses `SD`, `WFl`, `l ≠ []` of Props/C19Lists.lean / C19Gen*.lean).  One call site has a
+                 weaker contract, proved sufficient in Props/C19Callers.lean: `get_exons` in
+                 GraphBasedModelConstructor.construct_fl_isoforms needs well-formed introns only (its length guard
+                 rejects every other list: `get_exons_length_guard`).  Records name the call site (file:line:function)
 Used through harness/pipeline.py `run_isoquant(..., wrapper=mon_wrap.py, env={"MON_FILE":…, "MON_SET":…})`;
 `read_monitor(path)` parses the file.
 """
@@ -208,6 +216,118 @@ def install_binsearch():
 
 
 # ------------------------------------------------------------------------------------------------
+# C19 audit-2 G4: the sorted-disjoint domain of DESIGN §6 on EVERY real call of a list function
+
+LISTFN_ARGS = {"jaccard_similarity": [0, 1], "read_coverage_fraction": [0, 1], "merge_ranges": [0, 1],
+               "sum_intervals_to_point": [0], "sum_intervals_from_point": [0], "intervals_total_length": [0],
+               "junctions_from_blocks": [0], "extra_exon_percentage": [1], "get_exons": [1], "get_exon": [1],
+               "get_following_exon_from_junctions": [1], "get_preceding_exon_from_junctions": [1],
+               "interval_bin_search": [0], "interval_bin_search_rev": [0], "truncate_read_to_polya": [0]}
+# functions that are total on [] (no l[0] / l[-1], no division by the total length)
+LISTFN_EMPTY_OK = {"junctions_from_blocks", "intervals_total_length", "get_exons", "merge_ranges"}
+# call sites with a weaker contract that is PROVED sufficient: (function, caller function) -> kinds that are not reported there
+#   get_exons @ construct_fl_isoforms: `len(novel_exons) != len(intron_path) + 1: continue` rejects every path that is not
+#   strictly gapped inside the transcript range, provided the introns are well formed (Props/C19Callers.get_exons_length_guard)
+LISTFN_SITE_CONTRACT = {("get_exons", "construct_fl_isoforms"): {"listfns_not_sd"}}
+
+
+def listfns_problems(l, need_nonempty=True):
+    """pure predicate: §6 domain of the C19 list theorems -> list of kinds"""
+    l = list(l)
+    if not l:
+        return ["listfns_empty"] if need_nonempty else []
+    res = []
+    try:
+        if any(a > b for a, b in l):
+            res.append("listfns_not_wf")
+        if any(l[i][1] >= l[i + 1][0] for i in range(len(l) - 1)):
+            res.append("listfns_not_sd")
+    except Exception as exc:
+        res.append("listfns_not_intervals")
+    return res
+
+
+def install_listfns(sink=None):
+    import importlib
+    import pkgutil
+    import src
+    import src.common as C
+    import src.long_read_profiles as LP
+    import src.gene_info as GI
+    out = sink or emit
+
+    def site(depth=2):
+        fr = sys._getframe(depth)
+        return "%s:%d:%s" % (os.path.basename(fr.f_code.co_filename), fr.f_lineno, fr.f_code.co_name), fr.f_code.co_name
+
+    def wrap(name, f):
+        def g(*a, **kw):
+            try:
+                where, fn = site()
+                out({"mon": "listfns", "kind": "call"})
+                skip = () if os.environ.get("MON_LISTFNS_STRICT") else LISTFN_SITE_CONTRACT.get((name, fn), ())
+                for i in LISTFN_ARGS[name]:
+                    for kind in listfns_problems(a[i], need_nonempty=name not in LISTFN_EMPTY_OK):
+                        if kind not in skip:
+                            out({"mon": "listfns", "kind": kind, "fn": name, "arg": i, "where": where, "list": _cut(list(a[i]))})
+                        else:      # counted, so that the evidence shows how often the weaker site contract was needed
+                            out({"mon": "listfns_site_contract", "kind": "call"})
+            except Exception as exc:
+                out({"mon": "listfns", "kind": "monitor_error", "exc": repr(exc)})
+            return f(*a, **kw)
+        g._listfns = True
+        return g
+
+    # src.common itself is not patched: its internal calls (get_exons -> junctions_from_blocks with the two infinite border
+    # blocks, get_exon -> get_exons) are covered by the check of the outer call
+    mods = []
+    for m in pkgutil.iter_modules(src.__path__):
+        if m.name == "common":
+            continue
+        try:
+            mods.append(importlib.import_module("src." + m.name))
+        except Exception:
+            pass
+    if "isoquant" in sys.modules:
+        mods.append(sys.modules["isoquant"])
+    orig = {n: getattr(C, n) for n in LISTFN_ARGS}
+    wrapped = {n: wrap(n, f) for n, f in orig.items()}
+    for mod in mods:
+        for n in LISTFN_ARGS:
+            if getattr(mod, n, None) is orig[n]:
+                setattr(mod, n, wrapped[n])
+
+    def wrap_method(cls, meth, nonempty):
+        o = getattr(cls, meth)
+
+        def g(self, feats, *a, **kw):
+            try:
+                out({"mon": "listfns", "kind": "call"})
+                for kind in listfns_problems(feats, need_nonempty=nonempty):
+                    out({"mon": "listfns", "kind": kind, "fn": cls.__name__ + "." + meth, "arg": 0, "where": site(2)[0],
+                         "list": _cut(list(feats))})
+            except Exception as exc:
+                out({"mon": "listfns", "kind": "monitor_error", "exc": repr(exc)})
+            return o(self, feats, *a, **kw)
+        setattr(cls, meth, g)
+
+    wrap_method(LP.OverlappingFeaturesProfileConstructor, "construct_profile_for_features", False)
+    wrap_method(LP.NonOverlappingFeaturesProfileConstructor, "construct_profile", True)
+    o_sp = GI.FeatureProfiles.set_profiles
+
+    def set_profiles(self, transcript_id, transcript_features, transcript_region, comparator):
+        try:
+            out({"mon": "listfns", "kind": "call"})
+            for kind in listfns_problems(transcript_features, need_nonempty=False):
+                out({"mon": "listfns", "kind": kind, "fn": "FeatureProfiles.set_profiles", "arg": 1, "where": str(transcript_id),
+                     "list": _cut(list(transcript_features))})
+        except Exception as exc:
+            out({"mon": "listfns", "kind": "monitor_error", "exc": repr(exc)})
+        return o_sp(self, transcript_id, transcript_features, transcript_region, comparator)
+    GI.FeatureProfiles.set_profiles = set_profiles
+
+
+# ------------------------------------------------------------------------------------------------
 # G7: the penalty the real assigner computes
 
 def install_penalty(sink=None):
@@ -235,7 +355,8 @@ def install_penalty(sink=None):
     return restore
 
 
-INSTALLERS = {"penalty": install_penalty, "c14events": install_c14events, "elong": install_elong, "binsearch": install_binsearch}
+INSTALLERS = {"penalty": install_penalty, "c14events": install_c14events, "elong": install_elong, "binsearch": install_binsearch,
+              "listfns": install_listfns}
 
 
 def install(names):
